@@ -196,9 +196,14 @@ def oracle_c09(line, case, stats, allc, lines):
     return errs[:3]
 
 def classify_c09(line, case, msg):
-    data = input_bytes(line).lower()
     if msg.startswith('no handlers'):
-        if re.search(rb'<(svg|math)', data) and re.search(rb'<(font|title|desc|foreignobject|mi|mo|mn|ms|mtext|annotation-xml|[a-z0-9]*[^a-z0-9 >/][^ >/]*)', data):
+        m = re.search(r"after prefix \.\.\.(b'.*'|b\".*\") \(trailing", msg)
+        tail = eval(m.group(1)).lower() if m else b''
+        data = input_bytes(line).lower()
+        # the unfinished construct is a start/end tag inside foreign content on which the simulator requests the lexeme
+        last_lt = tail.rfind(b'<')
+        unfinished = tail[last_lt:] if last_lt >= 0 else b''
+        if re.search(rb'<(svg|math)', data) and re.match(rb'</?(font|title|desc|foreignobject|mi|mo|mn|ms|mtext|annotation-xml|[a-z][a-z0-9]*[^a-z0-9 \t\n\f\r>/])', unfinished):
             return 'RequestLexemePending'
     return None
 
